@@ -116,3 +116,41 @@ package cte
 //@   ensures len(_this.indenter.indent) == 0 && len(_this.stack) == 1
 //@   ensures typeIs(_this.Decorator, "*TopLevelDecorator") && payload(_this.Decorator, "*TopLevelDecorator") == &topLevelDecorator
 //@   ensures _this.stack[0] == _this.Decorator
+
+// ---------------------------------------------------------------------------------------------
+// Array engine of the CTE encoder (C23 kernel): how chunk data split over data events reaches the
+// element writer. The element writer (the closure in addElementsFunc, one per array type) is only
+// counted: elemOutLen is the number of bytes it has been handed so far (ghost); endCalls counts
+// calls of the completion closure. For every element width W (1, 2, 4, 8, 16) and every split:
+// the bytes handed on plus the bytes kept pending grow by exactly the data of the event, what is
+// handed on is always a whole number of elements, fewer than W bytes stay pending, the remaining
+// element count of the chunk drops by the elements handed on, and the array is completed exactly
+// when the final chunk has no elements left.
+//@ ghost elemOutLen uint64
+//@ ghost endCalls uint64
+//@ iface cte.arrayEncoderEngine.addElementsFunc
+//@   modifies elemOutLen, out, outLen, wfailed, arrayEncoderEngine.hasWrittenElements, arrayEncoderEngine.stringBuffer, Writer.Column, Writer.Buffer, memall(uint8), alloc
+//@   ensures elemOutLen == old(elemOutLen) + uint64(len(b))
+//@   may_panic
+//@ iface cte.arrayEncoderEngine.onComplete
+//@   modifies endCalls, allheap, out, outLen, wfailed
+//@   ensures endCalls == old(endCalls) + 1
+//@   may_panic
+//@ func (*arrayEncoderEngine).endArray
+//@   requires _this.onComplete != nil
+//@   modifies endCalls, allheap, out, outLen, wfailed
+//@   ensures endCalls == old(endCalls) + 1
+//@   may_panic
+
+//@ spec EngineOK(e *arrayEncoderEngine) bool = e.addElementsFunc != nil && e.onComplete != nil && (e.arrayElementByteWidth == 1 || e.arrayElementByteWidth == 2 || e.arrayElementByteWidth == 4 || e.arrayElementByteWidth == 8 || e.arrayElementByteWidth == 16) && e.arrayElementBitWidth == 8 * e.arrayElementByteWidth && e.arrayChunkLeftover.arr == uint64(e.arrayChunkBacking) && e.arrayChunkLeftover.off == 0 && cap(e.arrayChunkLeftover) == 16 && len(e.arrayChunkLeftover) < e.arrayElementByteWidth
+
+//@ func (*arrayEncoderEngine).AddArrayData
+//@   requires EngineOK(_this) && data.arr != uint64(_this.arrayChunkBacking) && allocated(_this.arrayChunkBacking) && len(data) <= 0x1000000000
+//@   requires _this.remainingChunkElements > 0 && uint64(len(_this.arrayChunkLeftover) + len(data)) / uint64(_this.arrayElementByteWidth) <= _this.remainingChunkElements
+//@   modifies obj(_this), elemOutLen, endCalls, out, outLen, wfailed, allheap, memall(uint8), alloc
+//@   let W = _this.arrayElementByteWidth
+//@   let T = len(_this.arrayChunkLeftover) + len(data)
+//@   ensures endCalls == old(endCalls) + ite(!old(_this.moreChunksFollow) && old(_this.remainingChunkElements) == uint64(T) / uint64(W), uint64(1), uint64(0))
+//@   ensures elemOutLen == old(elemOutLen) + uint64(T - (T & (W - 1)))
+//@   ensures endCalls == old(endCalls) ==> len(_this.arrayChunkLeftover) == T & (W - 1) && _this.remainingChunkElements == old(_this.remainingChunkElements) - uint64(T) / uint64(W) && EngineOK(_this)
+//@   may_panic
